@@ -180,6 +180,79 @@ example :
     let s := crun 1 (CSt.init lists) [.send 0, .send 0, .take, .send 0, .take]
     s.written = [(0, 10), (0, 12)] ∧ s.dropped = 1 := by decide
 
+/-! ## the writer stalled (parked, or blocked in a write): only `send` events -/
+
+/-- a schedule without `take` events -/
+def noTake : List CEv → Bool
+  | [] => true
+  | .take :: _ => false
+  | .send _ :: r => noTake r
+
+theorem crun_cons (cap : Nat) (s : CSt α) (e : CEv) (evs : List CEv) :
+    crun cap s (e :: evs) = crun cap (cstep cap s e) evs := rfl
+
+theorem full_stays_full (cap : Nat) : ∀ (evs : List CEv) (s : CSt α), noTake evs = true → s.queue.length ≥ cap →
+    (crun cap s evs).queue = s.queue ∧ (crun cap s evs).written = s.written
+  | [], _, _, _ => ⟨rfl, rfl⟩
+  | .take :: _, _, h, _ => by simp [noTake] at h
+  | .send i :: evs, s, h, hf => by
+    simp only [noTake] at h
+    rw [crun_cons]
+    have hs : (cstep cap s (.send i)).queue = s.queue ∧ (cstep cap s (.send i)).written = s.written := by
+      unfold cstep
+      cases hp : s.pending i with
+      | nil => simp [hp]
+      | cons m rest => simp [hp, hf]
+    have := full_stays_full cap evs (cstep cap s (.send i)) h (by rw [hs.1]; exact hf)
+    exact ⟨this.1.trans hs.1, this.2.trans hs.2⟩
+
+/-- **while the writer is stalled every sender gets a PREFIX of its messages into the channel**: a message is
+never accepted after an earlier message of the same sender was dropped (once full the channel stays full),
+nothing is written, and what is in the channel is whole messages in per-sender order -/
+theorem stalled_writer_accepts_prefixes (cap : Nat) : ∀ (evs : List CEv) (s : CSt α), noTake evs = true → ∀ i,
+    ∃ pre, fromSender i (crun cap s evs).queue = fromSender i s.queue ++ pre ∧ pre <+: s.pending i ∧
+      (crun cap s evs).written = s.written
+  | [], s, _, i => ⟨[], by simp [crun], List.nil_prefix, rfl⟩
+  | .take :: _, _, h, _ => by simp [noTake] at h
+  | .send j :: evs, s, h, i => by
+    simp only [noTake] at h
+    rw [crun_cons]
+    cases hp : s.pending j with
+    | nil =>
+      have e : cstep cap s (.send j) = s := by simp [cstep, hp]
+      rw [e]
+      exact stalled_writer_accepts_prefixes cap evs s h i
+    | cons m rest =>
+      by_cases hf : s.queue.length ≥ cap
+      · -- dropped; the channel stays as it is
+        have e : cstep cap s (.send j) = { s with pending := fun k => if k = j then rest else s.pending k, dropped := s.dropped + 1 } := by
+          simp [cstep, hp, hf]
+        rw [e]
+        have := full_stays_full cap evs { s with pending := fun k => if k = j then rest else s.pending k, dropped := s.dropped + 1 } h hf
+        exact ⟨[], by rw [this.1]; simp, List.nil_prefix, by rw [this.2]⟩
+      · have e : cstep cap s (.send j) = { s with pending := fun k => if k = j then rest else s.pending k, queue := s.queue ++ [(j, m)] } := by
+          simp [cstep, hp, hf]
+        rw [e]
+        obtain ⟨pre, h1, h2, h3⟩ := stalled_writer_accepts_prefixes cap evs
+          { s with pending := fun k => if k = j then rest else s.pending k, queue := s.queue ++ [(j, m)] } h i
+        by_cases hi : i = j
+        · subst hi
+          refine ⟨m :: pre, ?_, ?_, h3⟩
+          · rw [h1, fromSender_append, fromSender_single_same]; simp
+          · simp only [if_true] at h2
+            rw [hp]
+            obtain ⟨t, ht⟩ := h2
+            exact ⟨t, by simp [← ht]⟩
+        · refine ⟨pre, ?_, ?_, h3⟩
+          · rw [h1, fromSender_append, fromSender_single_other i j m (Ne.symm hi)]; simp
+          · simpa [hi] using h2
+
+/-- non-vacuity: capacity 2, the writer stalled: sender 0 gets two in, everything later is dropped -/
+example :
+    let lists : Nat → List Nat := fun i => if i = 0 then [10, 11, 12] else if i = 1 then [20, 21] else []
+    let s := crun 2 (CSt.init lists) [.send 0, .send 0, .send 1, .send 0, .send 1]
+    s.queue = [(0, 10), (0, 11)] ∧ s.dropped = 3 ∧ s.written = [] := by decide
+
 /-! ## the handshake reads under `HAND_READ_TIMEOUT` / `SHAKE_READ_TIMEOUT` -/
 
 theorem waitsBelow_take {lim : Nat} {ts : TStream} (h : WaitsBelow lim ts) (n : Nat) : WaitsBelow lim (ts.take n) :=
@@ -271,5 +344,67 @@ example :
     (readMessageT (α := Body Unit) T netAutomatedTesting 3 decPingPong (tagSched [(0, frame.take 5), (10000, frame.drop 5)])).isTimedOut = true ∧
     (readMessageT (α := Body Unit) T netAutomatedTesting 3 decPingPong (tagSched [(0, frame.take 26), (10000, frame.drop 26)])).isTimedOut = true := by
   decide
+
+/-! ## the receive tracker does not see the fragmentation -/
+
+theorem runCounts_sim {B H σ1 σ2 : Type} (env : Env B H) {ops1 : SockOps σ1} {ops2 : SockOps σ2} {R : σ1 → σ2 → Prop}
+    (hs : Sim ops1 ops2 R) (attach : Message B H → Option Nat) (quiet : Res B H → Bool) :
+    ∀ (fuel : Nat) (c : Codec H) (s : σ1) (b : σ2), R s b →
+      runCounts env ops1 attach quiet fuel c s = runCounts env ops2 attach quiet fuel c b := by
+  intro fuel
+  induction fuel with
+  | zero => intro c s b _; rfl
+  | succ fuel ih =>
+    intro c s b h
+    obtain ⟨e1, e2, _, e4, e5⟩ := read_sim env hs c s b h
+    simp only [runCounts]
+    rw [e1, e2, e4]
+    cases hres : (read env ops2 c b).res with
+    | msg m =>
+      simp only
+      cases hc : nextCodec attach (read env ops2 c b).codec m with
+      | none => rfl
+      | some c' => simp only [ih c' _ _ e5]
+    | err e => rfl
+    | panic st => rfl
+    | hang => rfl
+
+/-- **`Tracker.received_bytes` is independent of the fragmentation**: the reader loop reports the same
+sequence of (bytes, counted-as-a-message?) entries - one per `codec.read()` - however the stream is cut -/
+theorem tracker_counts_frag_irrelevant {B H : Type} (env : Env B H) (attach : Message B H → Option Nat)
+    (quiet : Res B H → Bool) (fuel : Nat) (c : Codec H) (frags : List Bytes) :
+    runCounts env fragOps attach quiet fuel c frags = runCounts env fragOps attach quiet fuel c [frags.flatten] :=
+  (runCounts_sim env sim_frag_flat attach quiet fuel c frags frags.flatten rfl).trans
+    (runCounts_sim env sim_frag_flat attach quiet fuel c [frags.flatten] frags.flatten (by simp)).symm
+
+/-! ## the handshake writes under their timeouts -/
+
+/-- **a remote that does not take the handshake message within the write timeout fails the handshake**
+(no `PeerInfo`, so no `Peer` is created), one that takes it in time changes nothing -/
+theorem write_stall_fails_handshake (v : Nat) (stall : Option Nat) :
+    (acceptWithWrite stall (.ok v) = .ok v ↔ ∃ w, stall = some w ∧ w < shakeWriteTimeout) ∧
+    (acceptWithWrite stall (.ok v) ≠ .ok v → acceptWithWrite stall (.ok v) = .writeTimeout) ∧
+    (initiateWithWrite stall (.ok v) = .ok v ↔ ∃ w, stall = some w ∧ w < handWriteTimeout) ∧
+    shakeWriteTimeout = 2000 ∧ handWriteTimeout = 2000 := by
+  refine ⟨?_, ?_, ?_, rfl, rfl⟩
+  · cases stall with
+    | none => simp [acceptWithWrite, writeCompletes]
+    | some w => by_cases h : w < shakeWriteTimeout <;> simp [acceptWithWrite, writeCompletes, h]
+  · cases stall with
+    | none => simp [acceptWithWrite, writeCompletes]
+    | some w => by_cases h : w < shakeWriteTimeout <;> simp [acceptWithWrite, writeCompletes, h]
+  · cases stall with
+    | none => simp [initiateWithWrite, writeCompletes]
+    | some w => by_cases h : w < handWriteTimeout <;> simp [initiateWithWrite, writeCompletes, h]
+
+/-- **a refusal by `accept` does not depend on the write path** (nothing is written to a refused peer, so a
+peer that never reads is refused exactly like any other); `initiate` writes before it can judge, so there
+the stall wins -/
+theorem accept_refusal_independent_of_write (e : HsErr) (stall : Option Nat) :
+    acceptWithWrite stall (.error e) = .refused e ∧ initiateWithWrite none (.error e) = .writeTimeout := by
+  simp [acceptWithWrite, initiateWithWrite, writeCompletes]
+
+example : acceptWithWrite (some 1999) (.ok 1000) = .ok 1000 ∧ acceptWithWrite (some 2000) (.ok 1000) = .writeTimeout ∧
+    acceptWithWrite none (.ok 2) = .writeTimeout := by decide
 
 end GV.Props.C19Send
